@@ -357,3 +357,50 @@ Definition codec_scan (n : nat) (ri mpr psv prec pt : Z) (mrows : list (list (li
     Some (dec_scan_rows ri mpr psv prec pt (repeat true n) (ri / mpr) (repeat [] n)
                         (map (map (map canon_diff)) ds))
   else None.
+
+(* ------------------------------------ jdlhuff.c decode_mcus under I/O suspension *)
+(* decode_mcus decodes up to n MCUs.  [dec_mcu st] is the inner "sampn" loop on
+   the working bit-reader state: None = a HUFF_DECODE / CHECK_BIT_BUFFER fail
+   action ("return mcu_num": the source has no more data right now); nothing
+   permanent has been touched.  BITREAD_SAVE_STATE after EVERY completed MCU
+   makes the permanent state the one after the last completed MCU, and the
+   caller (jddiffct.c "diff->MCU_ctr += MCU_count") resumes at that column. *)
+Section Suspension.
+  Variable S : Type.
+  Fixpoint decode_mcus_susp (dec_mcu : S -> option (list Z * S)) (n : nat) (st : S) : list (list Z) * S :=
+    match n with
+    | O => ([], st)
+    | Datatypes.S k =>
+        match dec_mcu st with
+        | None => ([], st)
+        | Some (m, st') => let (ms, st'') := decode_mcus_susp dec_mcu k st' in (m :: ms, st'')
+        end
+    end.
+
+  (* the application receives more data between the calls: one decoder per call;
+     the controller asks for the MCUs still missing, from the saved state *)
+  Fixpoint resume_calls (calls : list (S -> option (list Z * S))) (last : S -> option (list Z * S))
+           (n : nat) (st : S) : list (list Z) * S :=
+    match calls with
+    | [] => decode_mcus_susp last n st
+    | d :: rest =>
+        let (ms, st') := decode_mcus_susp d n st in
+        let (ms', st'') := resume_calls rest last (n - length ms) st' in
+        (ms ++ ms', st'')
+    end.
+
+  (* the seeded variant: state written back once, after all requested MCUs *)
+  Fixpoint decode_mcus_hoisted_loop (dec_mcu : S -> option (list Z * S)) (n : nat) (st : S)
+    : list (list Z) * option S :=
+    match n with
+    | O => ([], Some st)
+    | Datatypes.S k =>
+        match dec_mcu st with
+        | None => ([], None)
+        | Some (m, st') => let (ms, r) := decode_mcus_hoisted_loop dec_mcu k st' in (m :: ms, r)
+        end
+    end.
+  Definition decode_mcus_hoisted (dec_mcu : S -> option (list Z * S)) (n : nat) (st : S) : list (list Z) * S :=
+    let (ms, r) := decode_mcus_hoisted_loop dec_mcu n st in
+    (ms, match r with Some st' => st' | None => st end).
+End Suspension.
